@@ -40,8 +40,10 @@ TmVals == << vm,                                                         \* a va
              Ins(vm, Ins(vn, Emp(NatT))),                                  \* {m, n}: commas inside the value
              Bin("equals", IntT, BoolT, C("zero", IntT), V("i", IntT)),  \* (0::int) = i
              App(C("all", FunT(FunT(NatT, BoolT), BoolT)), Lambda(vm, Bin("less", NatT, BoolT, vm, App(vf, vm)))) >>   \* !m. m < f m  (bound name = a free name elsewhere)
-Tys == { TyVals[i] : i \in 1..NTy }
+Tys == { TyVals[i] : i \in 1..NTy }          \* the values used in the products (instantiations over several names, lists)
 Tms == { TmVals[i] : i \in 1..NTm }
+TysAll == { TyVals[i] : i \in 1..Len(TyVals) }    \* every value: single entries, single arguments, pairs
+TmsAll == { TmVals[i] : i \in 1..Len(TmVals) }
 ThNames == {"conjI", "nat_induct"}
 \* ---- association lists sorted by name (the printer sorts the entries)
 NameOrder == <<"A", "a", "b", "c", "x">>
@@ -51,14 +53,16 @@ SortNames(S) == IF S = {} THEN <<>> ELSE LET x == CHOOSE y \in S : \A z \in S : 
 ALs(names, vals) == UNION { { [i \in 1..Len(SortNames(D)) |-> <<SortNames(D)[i], g[SortNames(D)[i]]>>] : g \in [D -> vals] } : D \in SUBSET names }
 Insts == { <<"inst", ty, tm>> : ty \in ALs(TyNames, Tys), tm \in ALs(TmNames, Tms) }
 Lists == UNION { [1..k -> Tms] : k \in 0..NList }
+Singles == { <<"inst", <<>>, << <<k, t>> >> >> : k \in TmNames, t \in TmsAll } \cup { <<"inst", << <<k, T>> >>, <<>> >> : k \in TyNames, T \in TysAll }
+           \cup { <<"inst", << <<k, T>> >>, << <<k, t>> >> >> : k \in TyNames \cap TmNames, T \in TysAll, t \in TmsAll }     \* 'k and k
 Universe ==
-  Insts \cup { <<"strinst", s, i[2], i[3]>> : s \in {"conjI"}, i \in Insts }
-  \cup { <<"tyinst", ty>> : ty \in ALs(TyNames, Tys) }
-  \cup { <<"term", t>> : t \in Tms }
-  \cup { <<"strtype", s, T>> : s \in {"x", "a"}, T \in Tys }
-  \cup { <<"strterm", s, t>> : s \in ThNames, t \in Tms }
-  \cup { <<"strterm2", s, t, u>> : s \in {"nat_induct"}, t \in Tms, u \in Tms }
-  \cup { <<"terms", l>> : l \in Lists }
+  Insts \cup Singles \cup { <<"strinst", s, i[2], i[3]>> : s \in {"conjI"}, i \in Insts \cup Singles }
+  \cup { <<"tyinst", ty>> : ty \in ALs(TyNames, Tys) } \cup { <<"tyinst", << <<k, T>> >> >> : k \in TyNames, T \in TysAll }
+  \cup { <<"term", t>> : t \in TmsAll }
+  \cup { <<"strtype", s, T>> : s \in {"x", "a"}, T \in TysAll }
+  \cup { <<"strterm", s, t>> : s \in ThNames, t \in TmsAll }
+  \cup { <<"strterm2", s, t, u>> : s \in {"nat_induct"}, t \in TmsAll, u \in TmsAll }
+  \cup { <<"terms", l>> : l \in Lists } \cup { <<"terms", <<t>>>> : t \in TmsAll }
   \cup { <<"str", s>> : s \in ThNames } \cup { <<"none">> }
 \* ---- the text format: tokens <<kind, payload>>; values are opaque tokens (their own round trip is C07_Syntax's business)
 Tok(k, x) == <<k, x>>
